@@ -1,8 +1,4 @@
 package main
 
-func runC06(args []string)       {}
-func runC07(args []string)       {}
-func runC07Worker(args []string) {}
-func runC07Corpus(args []string) {}
 func runC08(args []string)       {}
 func runC08Worker(args []string) {}
